@@ -51,7 +51,11 @@ func c09Case(c *hx.Ctx, r *hx.RNG, idx int64) {
 				panic(st.pi.Val)
 			}
 			if !(st.pi.IsNaN && st.nanOK) {
-				c.Violate("panic", fmt.Sprintf("step %d %s: %s panic %q at %s; last steps: %v", i, d, st.pi.Class, st.pi.Text, st.pi.Stack, trace), st.kf)
+				kf := ""
+				if st.pi.IsNaN {
+					kf = st.kf // (the ErrNaN of Inf - Inf that D15's saturated product provokes; no other panic is that finding)
+				}
+				c.Violate("panic", fmt.Sprintf("step %d %s: %s panic %q at %s; last steps: %v", i, d, st.pi.Class, st.pi.Text, st.pi.Stack, trace), kf)
 				return
 			}
 		}
